@@ -251,8 +251,146 @@ def _triggers(body, nvars, cc=None):
     return trig
 
 
+def _var_offset(c):
+    if z3.is_var(c):
+        return z3.get_var_index(c), 0
+    if z3.is_app(c) and c.decl().kind() in (z3.Z3_OP_ADD, z3.Z3_OP_SUB) and c.num_args() == 2:
+        a, b = c.children()
+        if z3.is_var(a) and z3.is_int_value(b):
+            off = b.as_long()
+            return z3.get_var_index(a), off if c.decl().kind() == z3.Z3_OP_ADD else -off
+        if z3.is_var(b) and z3.is_int_value(a) and c.decl().kind() == z3.Z3_OP_ADD:
+            return z3.get_var_index(b), a.as_long()
+    return None
+
+
+def _vars_in(e, depth=0, acc=None):
+    acc = set() if acc is None else acc
+    if z3.is_var(e):
+        acc.add(z3.get_var_index(e) - depth)
+    elif z3.is_quantifier(e):
+        _vars_in(e.body(), depth + e.num_vars(), acc)
+    else:
+        for c in e.children():
+            _vars_in(c, depth, acc)
+    return acc
+
+
+def _patterns(body, nvars):
+    """Candidate trigger patterns of a quantifier body: indexing / uninterpreted applications (at nesting depth 0)
+    that mention at least one bound variable; returned with the set of variables they bind."""
+    out = []
+    seen = set()
+
+    def rec(e):
+        i = e.get_id()
+        if i in seen:
+            return
+        seen.add(i)
+        if z3.is_quantifier(e) or not z3.is_app(e):
+            return
+        if _is_indexing(e) and _has_var(e):
+            vs = {v for v in _vars_in(e) if 0 <= v < nvars}
+            if vs and _matchable(e):
+                out.append((e, vs))
+        for c in e.children():
+            rec(c)
+
+    rec(body)
+    return out
+
+
+def _matchable(p):
+    """Every variable occurrence in p is reachable through matchable positions (var, var+-c, nested applications)."""
+    if not _has_var(p):
+        return True
+    if _var_offset(p) is not None:
+        return True
+    if z3.is_app(p) and p.num_args() > 0 and p.decl().kind() not in (z3.Z3_OP_ADD, z3.Z3_OP_SUB, z3.Z3_OP_MUL, z3.Z3_OP_ITE):
+        return all(_matchable(c) for c in p.children())
+    return False
+
+
+class Matcher:
+    def __init__(self, cc, ground_by_decl):
+        self.cc = cc
+        self.by_decl = ground_by_decl
+
+    def match_term(self, p, t, b):
+        """Match pattern p against ground term t under bindings b (dict var -> term).  Yields extended bindings."""
+        if not _has_var(p):
+            if p.get_id() == t.get_id() or (self.cc is not None and self.cc.rep(p) == self.cc.rep(t)):
+                yield b
+            return
+        vo = _var_offset(p)
+        if vo is not None:
+            v, off = vo
+            val = t if off == 0 else z3.simplify(t - off)
+            if v in b:
+                if b[v].get_id() == val.get_id() or (self.cc is not None and off == 0 and self.cc.rep(b[v]) == self.cc.rep(val)):
+                    yield b
+                return
+            if val.sort() != self.var_sorts.get(v, val.sort()):
+                return
+            nb = dict(b)
+            nb[v] = val
+            yield nb
+            return
+        if not z3.is_app(p):
+            return
+        # p is an application with variables: t (or a term equal to t) must have the same head
+        cands = [t]
+        if self.cc is not None:
+            r = self.cc.rep(t)
+            for g in self.by_decl.get(p.decl().get_id(), ()):
+                if g.get_id() != t.get_id() and self.cc.rep(g) == r:
+                    cands.append(g)
+        for g in cands:
+            if not (z3.is_app(g) and g.decl().get_id() == p.decl().get_id() and g.num_args() == p.num_args()):
+                continue
+            yield from self.match_args(list(p.children()), list(g.children()), b)
+
+    def match_args(self, ps, ts, b):
+        if not ps:
+            yield b
+            return
+        for nb in self.match_term(ps[0], ts[0], b):
+            yield from self.match_args(ps[1:], ts[1:], nb)
+
+    def match_pattern(self, p, b, var_sorts):
+        self.var_sorts = var_sorts
+        for g in self.by_decl.get(p.decl().get_id(), ()):
+            yield from self.match_args(list(p.children()), list(g.children()), b)
+
+
 def instantiate_once(exprs, idx, consts, stats, cc=None, goal_ids=frozenset()):
     cache = {}
+    by_decl = {}
+    if cc is not None:
+        for t in cc.terms.values():
+            if t.num_args() > 0:
+                by_decl.setdefault(t.decl().get_id(), []).append(t)
+    matcher = Matcher(cc, by_decl)
+
+    def joint_bindings(e):
+        """E-matching with multi-variable patterns: list of binding tuples (indexed by de Bruijn index) or None."""
+        n = e.num_vars()
+        if n < 2:
+            return None
+        pats = _patterns(e.body(), n)
+        full = [p for p, vs in pats if len(vs) == n]
+        var_sorts = {j: e.var_sort(n - 1 - j) for j in range(n)}
+        results = {}
+        if full:
+            for p in full[:6]:
+                for b in matcher.match_pattern(p, {}, var_sorts):
+                    if len(b) == n:
+                        key = tuple(b[j].get_id() for j in range(n))
+                        results[key] = tuple(b[j] for j in range(n))
+                        if len(results) > MAX_INST_PER_Q:
+                            return None
+            return list(results.values())
+        return None
 
     def candidates(e):
         for mode in ("wide", "exact", "goal"):
@@ -304,11 +442,19 @@ def instantiate_once(exprs, idx, consts, stats, cc=None, goal_ids=frozenset()):
             if not e.is_forall():
                 r = e
             else:
+                insts = []
+                jb = joint_bindings(e)
+                if jb is not None:
+                    body = e.body()
+                    for combo in jb:
+                        insts.append(inst(z3.substitute_vars(body, *combo)))
+                    stats["joint"] = stats.get("joint", 0) + 1
                 cands = candidates(e)
                 total = 1
                 for c in cands:
                     total *= len(c)
-                insts = []
+                if jb is not None and total > MAX_INST_PER_Q // 2:
+                    total = 0      # the joint matches stand alone when the per-variable product is large
                 if total and total <= MAX_INST_PER_Q:
                     body = e.body()
                     for combo in itertools.product(*cands):
